@@ -400,7 +400,12 @@ fn body_json<'tcx>(tcx: TyCtxt<'tcx>, did: DefId, body: &Body<'tcx>) -> J {
             match &st.kind {
                 StatementKind::Assign(b) => {
                     let (p, rv) = &**b;
-                    stmts.push(J::Arr(vec![s("a"), place_json(tcx, body, p), rvalue_json(tcx, env, body, rv), J::Int(ln)]));
+                    // type of the place that owns the last field projection (for "store to T.f" rules)
+                    let mut owner = J::Null;
+                    if let Some((base, ProjectionElem::Field(..))) = p.as_ref().last_projection() {
+                        owner = s(base.ty(&body.local_decls, tcx).ty.to_string());
+                    }
+                    stmts.push(J::Arr(vec![s("a"), place_json(tcx, body, p), rvalue_json(tcx, env, body, rv), J::Int(ln), owner]));
                 }
                 StatementKind::StorageDead(l) => {
                     stmts.push(J::Arr(vec![s("sd"), J::Int(l.as_usize() as i128)]));
